@@ -2,6 +2,7 @@
 Every program is a lang.Program (logical form); the surface text is printed from it."""
 import random
 from .lang import *
+from .lang import _item_vars
 
 I = "i32"
 
@@ -93,6 +94,12 @@ def c01_curated():
         rule(H("r", x, y), Cl("o", Pat(PC("Some", PV("x")))), Cl("e", x, y)),
         rule(H("r", y, zz()), Cl("r", x, y), Let(PV("zz"), Bin("%", Bin("+", y, C(1)), C(3))), If(Bin("!=", zz(), x))),
         rule(H("o", Ctor("Some", y)), Cl("r", x, y), If(Bin("==", x, C(0))))]))
+    # binders (let / for / if let) in front of a two-clause join whose second clause uses the bound variable
+    P.append(Program("binder_before_join", [R("foo", I, I), R("bar", I, I), R("o", "Option<i32>"), R("out", I, I, I), R("out2", I, I, I), R("out3", I, I)], [
+        rule(H("out", x, y, z_), Let(PV("z"), C(2)), Cl("foo", x, y), Cl("bar", y, z_)),
+        rule(H("out2", x, y, z_), For(PV("z"), Rng(C(0), C(2))), Cl("foo", x, y), Cl("bar", y, z_)),
+        rule(H("out3", x, z_), Cl("o", Pat(PC("Some", PV("q")))), Let(PV("z"), Bin("%", Bin("+", V("q"), C(1)), C(3))), Cl("foo", x, y), Cl("bar", y, z_)),
+        rule(H("foo", x, z_), For(PV("z"), Rng(C(1), C(3))), Cl("foo", x, y), Cl("bar", y, z_))]))
     P.append(Program("arity3", [R("t", I, I, I), R("s", I, I), R("u", I, I, I)], [
         rule(H("u", x, y, z_), Cl("t", x, y, z_)),
         rule(H("u", x, z_, y), Cl("u", x, y, z_), Cl("s", y, z_)),
@@ -131,6 +138,12 @@ class RandGen:
         vars_pool = ["x", "y", "z", "w", "u"]
         bound = []
         body = []
+        if rng.random() < 0.2:
+            if rng.random() < 0.5:
+                body.append(Let(PV("b0"), C(rng.randint(0, 2))))
+            else:
+                body.append(For(PV("b0"), Rng(C(0), C(rng.randint(2, 3)))))
+            bound.append("b0")
         for _i in range(nb):
             r = rng.choice(rels)
             args = []
@@ -225,6 +238,11 @@ def c03_curated():
 
 
 # ------------------------------------------------------------------------------------ C04 (negation / aggregation)
+WSUM_PRELUDE = """pub fn wsum<'a>(inp: impl Iterator<Item = (&'a i32, &'a i32)>) -> impl Iterator<Item = i32> {
+      std::iter::once(inp.map(|(a, b)| a * 3 + b).sum())
+   }"""
+
+
 def c04_curated():
     P = []
     m_, s_ = V("m"), V("s")
@@ -260,9 +278,299 @@ def c04_curated():
         rule(H("m", x, y), Cl("s", x, y)),
         rule(H("cnt", V("v"), n), Cl("q", V("v")), Agg(PV("n"), "count", [], "m", [_, V("v")])),
         rule(H("nohit", V("v")), Cl("q", V("v")), Neg("m", [_, V("v")]))]))
+    P.append(Program("agg_before_join", [R("r", I, I), R("p", I), R("q", I, I), R("h", I, I), R("h2", I, "usize")], [
+        rule(H("h", y, m_), Agg(PV("m"), "max", ["v"], "r", [_, V("v")]), Cl("p", y), Cl("q", y, m_)),
+        rule(H("h2", y, n), Cl("p", y), Agg(PV("n"), "count", [], "r", [y, _]), Cl("q", y, _), Cl("r", _, y))]))
+    P.append(Program("agg_custom_two_args", [R("cand", I, I, I), R("g", I), R("best", I, I), R("best2", I, I)], [
+        rule(H("best", x, s_), Cl("g", x), Agg(PV("s"), "wsum", ["b", "a"], "cand", [x, V("a"), V("b")])),
+        rule(H("best2", x, s_), Cl("g", x), Agg(PV("s"), "wsum", ["a", "b"], "cand", [V("a"), x, V("b")]))],
+        prelude=WSUM_PRELUDE))
     P.append(Program("agg_mean", [R("e", I, I), R("avg", I, I)], [
         rule(H("avg", x, Bin("*", m_, C(1))), Cl("e", x, _), Agg(PV("m"), "sum", ["y"], "e", [x, y]))]))
     P.append(Program("agg_bound_expr", [R("e", I, I), R("k", I), R("r", I, "usize")], [
         rule(H("r", x, n), Cl("k", x), Agg(PV("n"), "count", [], "e", [Bin("%", Bin("+", x, C(1)), C(3)), _])),
         rule(H("r", x, n), Cl("k", x), Agg(PV("n"), "count", [], "e", [x, C(1)]))]))
     return P
+
+
+# ------------------------------------------------------------------------------------ C07 (surface forms)
+def c07_curated():
+    P = []
+    OI = "Option<i32>"
+    P.append(Program("disj_basic", [R("e", I, I), R("f", I, I), R("g", I), R("r", I, I), R("s", I, I)], [
+        rule(H("r", x, y), Disj([[Cl("e", x, y)], [Cl("f", x, y)]])),
+        rule(H("s", x, y), Disj([[Cl("e", x, y)], [Cl("f", x, y), Cl("g", y)]])),
+        rule(H("s", x, z_), Disj([[Cl("e", x, y)], [Cl("f", x, y)]]), Disj([[Cl("e", y, z_)], [Cl("f", y, z_)]]))]))
+    P.append(Program("disj_positions", [R("e", I, I), R("f", I, I), R("p", I, I), R("q", I, I), R("t", I, I)], [
+        rule(H("p", x, z_), Cl("e", x, y), Disj([[Cl("e", y, z_)], [Cl("f", y, z_)]])),
+        rule(H("q", x, w), Cl("e", x, y), Cl("f", y, z_), Disj([[Cl("e", z_, w)], [Cl("f", z_, w), If(Bin("!=", x, w))]])),
+        rule(H("t", x, y), Disj([[Cl("p", x, y), If(Bin("<", x, y))], [Cl("q", y, x), Neg("e", [x, x])]]), Cl("f", _, y)),
+        rule(H("p", x, z_), Disj([[Cl("p", x, y)], [Cl("t", x, y)]]), Cl("e", y, z_))]))
+    P.append(Program("disj_nested", [R("a", I), R("b", I), R("c", I), R("d", I, I), R("r", I)], [
+        rule(H("r", x), Disj([[Cl("a", x)], [Disj([[Cl("b", x)], [Cl("c", x), Cl("d", x, _)]]), Cl("d", _, x)]])),
+        rule(H("r", y), Cl("r", x), Disj([[Cl("d", x, y)], [Cl("d", y, x), Disj([[Cl("a", y)], [Cl("b", y)]])]]))]))
+    P.append(Program("pattern_args", [R("o", OI, I), R("e", I, I), R("r", I, I), R("s", I)], [
+        rule(H("r", x, y), Cl("o", Pat(PC("Some", PV("x"))), y)),
+        rule(H("s", x), Cl("o", Pat(PC("Some", PV("x"))), y), Cl("e", y, x), Cl("o", _, y)),
+        rule(H("s", y), Cl("e", x, y), Cl("o", Pat(PC("Some", PV("q"))), x), If(Bin("!=", V("q"), y))),
+        rule(H("o", Ctor("Some", y), x), Cl("r", x, y), Cl("o", Pat(PC("None")), _))]))
+    P.append(Program("repeated_vars", [R("e", I, I), R("t", I, I, I), R("a", I), R("b", I, I), R("c", I, I)], [
+        rule(H("a", x), Cl("t", x, x, x)),
+        rule(H("b", x, y), Cl("e", x, y), Cl("t", y, x, y)),
+        rule(H("c", x, y), Cl("e", x, _), Cl("e", _, y), Cl("t", x, y, x)),
+        rule(H("b", x, x), Cl("b", x, y), Cl("e", y, y)),
+        rule(H("c", y, y), Cl("c", x, y), Cl("b", y, x), Cl("t", x, _, y))]))
+    P.append(Program("expr_args", [R("e", I, I), R("f", I, I), R("r", I, I), R("s", I, I)], [
+        rule(H("r", x, y), Cl("e", x, Bin("%", Bin("+", x, C(1)), C(3))), Cl("f", x, y)),
+        rule(H("s", x, z_), Cl("e", x, y), Cl("f", y, Bin("%", Bin("+", y, C(2)), C(3))), Cl("f", x, z_)),
+        rule(H("s", x, y), Cl("r", x, y), Cl("e", Bin("%", Bin("+", y, C(1)), C(3)), C(0))),
+        rule(H("r", Bin("%", Bin("+", x, y), C(3)), x), Cl("s", x, y), Cl("f", C(1), Bin("%", Bin("*", x, C(2)), C(3))))]))
+    P.append(Program("wild_neg_heads", [R("e", I, I), R("n", I), R("a", I), R("b", I), R("c", I, I)], [
+        rule([H("a", x), H("b", y)], Cl("e", x, y), Neg("e", [y, _])),
+        rule([H("c", x, x), H("c", x, C(0))], Cl("n", x), Neg("e", [_, x]), Neg("e", [x, x])),
+        rule(H("a", C(2))),
+        rule([H("b", C(0)), H("n", C(1))]),
+        rule(H("c", x, y), Cl("a", x), Cl("b", y), Neg("n", [Bin("%", Bin("+", x, y), C(3))]))]))
+    P.append(Program("sugar_mix", [R("e", I, I), R("o", OI, I), R("m", I), R("k", I), R("r", I, I)], [
+        rule([H("r", x, y), H("m", x)], Disj([[Cl("e", x, y), Cl("e", y, y)], [Cl("o", Pat(PC("Some", PV("x"))), y), Neg("k", [y])]]), If(Bin("<=", x, y))),
+        rule(H("r", y, x), Cl("r", x, y), Disj([[Cl("e", y, Bin("%", Bin("+", x, C(1)), C(3)))], [Cl("e", x, x)]]))]))
+    return P
+
+
+# ------------------------------------------------------------------------------------ C08 (in-program macros)
+def c08_curated():
+    P = []
+    tt, uu = V("t"), V("u")
+    both = MacroDef("both", [("a", "ident"), ("b", "ident")], [Cl("e", V("a"), tt), Cl("f", tt, V("b"))])
+    P.append(Program("macro_basic", [R("e", I, I), R("f", I, I), R("g", I, I), R("r", I, I), R("r2", I, I), R("r3", I, I)], [
+        rule(H("r", x, y), MacroCall("both", [x, y])),
+        rule(H("r2", x, z_), MacroCall("both", [x, y]), MacroCall("both", [y, z_])),
+        rule(H("r3", x, tt), MacroCall("both", [x, y]), Cl("g", y, tt))], macros=[both]))
+    exprm = MacroDef("exprm", [("e1", "expr")], [Cl("g", V("e1"), uu), If(Bin(">", uu, C(0)))])
+    P.append(Program("macro_expr_param", [R("e", I, I), R("g", I, I), R("r4", I, I), R("r5", I, I)], [
+        rule(H("r4", x, uu), Cl("e", x, uu), MacroCall("exprm", [Bin("%", Bin("+", x, C(1)), C(3))])),
+        rule(H("r5", x, y), Cl("e", x, y), MacroCall("exprm", [x]), MacroCall("exprm", [y]))], macros=[exprm]))
+    inner = MacroDef("inner", [("a", "ident"), ("b", "ident")], [Cl("e", V("a"), V("w")), Cl("e", V("w"), V("b"))])
+    outer = MacroDef("outer", [("a", "ident")], [MacroCall("inner", [V("a"), V("w")]), Cl("g", V("w"), _)])
+    P.append(Program("macro_nested", [R("e", I, I), R("g", I, I), R("r", I), R("r2", I, I)], [
+        rule(H("r", x), MacroCall("outer", [x])),
+        rule(H("r2", x, V("w")), MacroCall("outer", [x]), Cl("g", x, V("w")), MacroCall("inner", [V("w"), y]), Cl("r", y))],
+        macros=[inner, outer]))
+    hd = MacroDef("hd", [("p", "expr"), ("q", "expr")], [Head("sym", [V("p"), V("q")]), Head("sym", [V("q"), V("p")])], head=True)
+    disjm = MacroDef("either", [("a", "ident"), ("b", "ident")], [Disj([[Cl("e", V("a"), V("b"))], [Cl("e", V("a"), V("k")), Cl("e", V("k"), V("b"))]])])
+    P.append(Program("macro_head_disj", [R("e", I, I), R("sym", I, I), R("near", I, I)], [
+        rule([MacroCall("hd", [x, y])], Cl("e", x, y)),
+        rule(H("near", x, y), MacroCall("either", [x, y]), If(Bin("!=", x, y))),
+        rule([MacroCall("hd", [x, V("k")])], MacroCall("either", [x, y]), Cl("near", y, V("k")))], macros=[hd, disjm]))
+    # call-site variables spelled like gensym outputs / macro-local names
+    loc = MacroDef("loc", [("a", "ident")], [Cl("e", V("a"), V("x_")), Cl("e", V("x_"), V("x__")), Cl("g", V("x__"), _)])
+    P.append(Program("macro_name_clash", [R("e", I, I), R("g", I, I), R("r", I, I), R("r2", I, I)], [
+        rule(H("r", V("x_"), V("x__")), Cl("e", V("x_"), V("x__")), MacroCall("loc", [V("x_")])),
+        rule(H("r2", V("a"), V("x_")), Cl("g", V("a"), V("x_")), MacroCall("loc", [V("a")]), MacroCall("loc", [V("x_")]))], macros=[loc]))
+    return P
+
+
+# ------------------------------------------------------------------------------------ C06 (reordering / renaming)
+def _rename_prog(p, vmap, rmap, name):
+    """consistent renaming of variables (vmap) and relations (rmap)"""
+    def ritem(it):
+        it = it.sub(vmap)
+        if isinstance(it, (Clause, Neg)):
+            it.rel = rmap.get(it.rel, it.rel)
+        elif isinstance(it, Agg):
+            it.rel = rmap.get(it.rel, it.rel)
+        elif isinstance(it, Disj):
+            it.alts = [[ritem(x) for x in alt] for alt in it.alts]
+        return it
+    rels = [Rel(rmap.get(r.name, r.name), list(r.types), r.lattice, r.ds, r.init) for r in p.rels]
+    rules = []
+    for r in p.rules:
+        heads = []
+        for h in r.heads:
+            h2 = h.sub(vmap)
+            h2.rel = rmap.get(h2.rel, h2.rel)
+            heads.append(h2)
+        rules.append(Rule(heads, [ritem(it) for it in r.body]))
+    return Program(name, rels, rules, attrs=list(p.attrs), prelude=p.prelude)
+
+
+def _retype_prog(p, ty, name, domain=None):
+    rels = [Rel(r.name, [ty if t == I else t for t in r.types], r.lattice, r.ds, r.init) for r in p.rels]
+    q = Program(name, rels, [Rule(list(r.heads), list(r.body)) for r in p.rules], attrs=list(p.attrs), prelude=p.prelude)
+    if domain:
+        q.domain = domain
+    return q
+
+
+def _all_vars(p):
+    vs = set()
+    for r in p.rules:
+        for it in r.body:
+            vs |= _item_vars(it)
+        for h in r.heads:
+            vs |= _item_vars(h)
+    return sorted(vs)
+
+
+def c06_variants(seed, per_base=6, bases=None):
+    """syntactic variants of base programs: permuted rules / declarations / head clauses / independent body
+    clauses, consistent renaming of variables and relations, change of the column type, injective renaming of
+    the constants (function-free programs only)."""
+    import itertools as _it
+    rng = random.Random(seed)
+    base = [p for p in c01_curated() if p.name in (bases or ("tc", "same_gen", "mutual3", "three_dyn", "join_cond2", "facts_multihead", "two_strata", "empty_rel"))]
+    out = []
+    adversarial = ["tuple", "before", "res", "timeout", "val", "row", "matching", "changed", "total", "delta", "rel_ind", "selection_tuple", "key", "v", "i"]
+    for p in base:
+        out.append(p)
+        for k in range(per_base):
+            kind = ["rules", "decls", "body", "rename_vars", "rename_rels", "heads"][k % 6]
+            q = Program("%s__v%d_%s" % (p.name, k, kind), [Rel(r.name, list(r.types)) for r in p.rels],
+                        [Rule(list(r.heads), list(r.body)) for r in p.rules])
+            if kind == "rules":
+                rng.shuffle(q.rules)
+            elif kind == "decls":
+                rng.shuffle(q.rels)
+                q.relmap = {r.name: r for r in q.rels}
+            elif kind == "heads":
+                for r in q.rules:
+                    if len(r.heads) > 1:
+                        r.heads = list(reversed(r.heads))
+                q.rules = list(reversed(q.rules))
+            elif kind == "body":
+                for r in q.rules:
+                    # reverse maximal runs of plain clauses whose arguments are variables / wildcards / constants
+                    run, newb = [], []
+                    for it in r.body + [None]:
+                        simple = isinstance(it, Clause) and all(isinstance(a_, (V, Wild, C)) for a_ in it.args)
+                        if simple:
+                            run.append(it)
+                        else:
+                            newb += list(reversed(run))
+                            run = []
+                            if it is not None:
+                                newb.append(it)
+                    r.body = newb
+            elif kind == "rename_vars":
+                vs = _all_vars(p)
+                names = rng.sample(adversarial, len(vs)) if len(vs) <= len(adversarial) else ["n%d" % i for i in range(len(vs))]
+                q = _rename_prog(p, dict(zip(vs, names)), {}, q.name)
+            elif kind == "rename_rels":
+                rn = {r.name: "%s_%s" % (rng.choice(["zz", "a0", "rel", "Tbl"]), r.name[::-1]) for r in p.rels}
+                q = _rename_prog(p, {}, rn, q.name)
+            out.append(q)
+        # column type / constant renaming for function-free programs
+        if p.name in ("tc", "same_gen", "mutual3"):
+            out.append(_retype_prog(p, "u8", p.name + "__u8"))
+            out.append(_retype_prog(p, "i64", p.name + "__i64_big", domain=[-7, 100000, 4000000000]))
+            out.append(_retype_prog(p, "usize", p.name + "__usize", domain=[5, 3, 99]))
+    return out
+
+
+# ------------------------------------------------------------------------------------ C09 (packaging variants)
+def _clone_prog(p, name, **attrs):
+    q = Program(name, [Rel(r.name, list(r.types), r.lattice, r.ds, r.init, list(r.init_rows)) for r in p.rels],
+                [Rule(list(r.heads), list(r.body)) for r in p.rules], macros=list(p.macros), attrs=list(p.attrs), prelude=p.prelude)
+    for k_, v_ in attrs.items():
+        setattr(q, k_, v_)
+    return q
+
+
+def c09_variants():
+    """packaging variants of base programs; the oracle is always the model of the bare logical program"""
+    out = []
+    bases = {p.name: p for p in c01_curated() + c04_curated() + c03_curated()}
+    for bn in ("tc", "two_strata", "facts_multihead", "agg_chain", "shortest_path"):
+        b = bases[bn]
+        out.append(_clone_prog(b, bn + "__base"))
+        out.append(_clone_prog(b, bn + "__times", attrs=["measure_rule_times"]))
+        q = _clone_prog(b, bn + "__rt_run")
+        q.attrs = ["generate_run_timeout"]
+        out.append(q)
+        q = _clone_prog(b, bn + "__both")
+        q.attrs = ["measure_rule_times", "generate_run_timeout"]
+        out.append(q)
+        nrules, nrels = len(b.rules), len(b.rels)
+        for pos in ("first", "middle", "last"):
+            inc = {"pos": pos, "rels": [r.name for r in b.rels[: max(1, nrels // 2)]], "rules": list(range(0, nrules, 2))}
+            out.append(_clone_prog(b, "%s__inc_%s" % (bn, pos), include=inc))
+        # everything inside the included source
+        out.append(_clone_prog(b, bn + "__inc_all", include={"pos": "first", "rels": [r.name for r in b.rels], "rules": list(range(nrules))}))
+    # generic struct signature
+    for bn in ("tc", "same_gen"):
+        b = bases[bn]
+        q = _clone_prog(b, bn + "__generic", type_params={"N": "i32"})
+        q.sig = "pub struct Prog<N: Clone + Eq + std::hash::Hash>;"
+        for r in q.rels:
+            r.types = ["N" for _t in r.types]
+        q.relmap = {r.name: r for r in q.rels}
+        out.append(q)
+    # initialised relations in ascent!
+    b = bases["tc"]
+    q = _clone_prog(b, "tc__init")
+    q.rels[0].init = "[(0, 1), (1, 2)].into_iter().collect()"
+    q.rels[0].init_rows = [(0, 1), (1, 2)]
+    q.relmap = {r.name: r for r in q.rels}
+    out.append(q)
+    q = _clone_prog(bases["two_strata"], "two_strata__init")
+    q.rels[1].init = "[(2, 0)].into_iter().collect()"
+    q.rels[1].init_rows = [(2, 0)]
+    q.relmap = {r.name: r for r in q.rels}
+    out.append(q)
+    # an aggregate over an initialised relation
+    q = _clone_prog(bases["agg_count_key"], "agg_count_key__init")
+    q.rels[0].init = "[(0, 1), (0, 2), (1, 1)].into_iter().collect()"
+    q.rels[0].init_rows = [(0, 1), (0, 2), (1, 1)]
+    q.relmap = {r.name: r for r in q.rels}
+    out.append(q)
+    # a re-declared relation: the later declaration wins
+    q = _clone_prog(b, "tc__redecl")
+    q.rels = [Rel("edge", [I, I], init="[(0, 1), (0, 2)].into_iter().collect()", init_rows=[(0, 1), (0, 2)]), Rel("path", [I, I])] + \
+        [Rel("edge", [I, I], init="[(1, 2)].into_iter().collect()", init_rows=[(1, 2)]), Rel("path", [I, I])]
+    q.relmap = {r.name: r for r in q.rels}
+    out.append(q)
+    # ascent_run! with captured locals (initialised relations and a captured flag)
+    for flag in (True, False):
+        q = Program("run_tc_%s" % ("refl" if flag else "plain"), [R("r", I, I, init="r_in"), R("tc", I, I)], [
+            rule(H("tc", x, y), Cl("r", x, y)),
+            rule(H("tc", x, z_), Cl("r", x, y), Cl("tc", y, z_)),
+            rule([H("tc", x, x), H("tc", y, y)], If(V("reflexive")), Cl("r", x, y))], kind="ascent_run")
+        q.locals = {"reflexive": flag}
+        q.input_rels = ["r"]
+        out.append(q)
+    for bn in ("two_strata", "agg_chain", "mutual3"):
+        b = bases[bn]
+        q = _clone_prog(b, bn + "__ascent_run")
+        q.kind = "ascent_run"
+        edb = []
+        heads = set(h.rel for r in q.rules for h in r.heads if r.body)
+        for r in q.rels:
+            if r.name not in heads:
+                r.init = r.name + "_in"
+                edb.append(r.name)
+        q.input_rels = edb
+        q.relmap = {r.name: r for r in q.rels}
+        out.append(q)
+    return out
+
+
+def c14_lattice():
+    """lattice programs for the interruption scenario (small: two run_timeout calls + run() are executed)"""
+    P = []
+    d, l = V("d"), V("l")
+    p1 = Program("lat_sp_small", [R("edge", I, I), R("dist", I, DI, lattice=True)], [
+        rule(H("dist", C(0), Ctor("Dual", C(0)))),
+        rule(H("dist", y, Ctor("Dual", Bin("+", w, C(1)))), Cl("dist", x, Pat(PC("Dual", PV("w")))), Cl("edge", x, y))])
+    P.append(p1)
+    # a lattice computed in one stratum and *scanned* (non-key index) by a later recursive stratum
+    p2 = Program("lat_scan_later", [R("s", I, I, I), R("m", I, I, I, lattice=True), R("lvl", I), R("st", I)], [
+        rule(H("m", x, y, w), Cl("s", x, y, w)),
+        rule(H("lvl", x), Cl("st", x)),
+        rule(H("lvl", y), Cl("lvl", x), Cl("m", x, y, _))])
+    p2.D = 3
+    P.append(p2)
+    return P
+
+
+def v_():
+    return V("v")
